@@ -21,6 +21,7 @@ NEWLINE_FORMATS = {
 #: A mapping of encodings to possible BOM markers.
 BOMS = {
     'utf-8': (codecs.BOM_UTF8,),
+    'utf-8-sig': (codecs.BOM_UTF8,),
     'utf-16': (codecs.BOM_UTF16_BE, codecs.BOM_UTF16_LE),
     'utf-16-le': (codecs.BOM_UTF16_LE,),
     'utf-16-be': (codecs.BOM_UTF16_BE,),
@@ -186,6 +187,15 @@ def strip_bom(data, encoding):
         The string, without any BOM markers.
     """
     boms = BOMS.get(encoding)
+
+    if boms is None and encoding:
+        # The encoding may be spelled differently from the names in our
+        # table ("UTF-16", "utf_16", "utf16", "U16"). Look up the codec's
+        # canonical name.
+        try:
+            boms = BOMS.get(codecs.lookup(encoding).name)
+        except (LookupError, TypeError):
+            boms = None
 
     if boms and data.startswith(boms):
         data = data[len(boms[0]):]
